@@ -1,6 +1,6 @@
 (* Props/C08.v -- property C08: MAC command handling is consistent and atomic: the device does what it answers. *)
 From Coq Require Import NArith ZArith List Bool.
-From LoraV Require Import Base.Bytes Model.MacCmd Gen.CmdTables Gen.RegionTables Model.Region Model.Mac Proofs.CmdProofs Proofs.TxProofs.
+From LoraV Require Import Base.Bytes Model.MacCmd Gen.CmdTables Gen.RegionTables Model.Region Model.Mac Proofs.CmdProofs Proofs.TxProofs Proofs.ChMaskCntl.
 Import ListNotations.
 Local Open Scope N_scope.
 
@@ -122,3 +122,34 @@ Proof.
     destruct (fix_masked_legal _ _ _ _ _ _ _ Es) as [_ [_ [_ [D _]]]]. exact D.
 Qed.
 
+
+(* RFU ChMaskCntl: the 16-channel plans (EU868, EU433, IN865, AS923) define 0 and 6 only; any other value -- in a single request
+   or as the last request of a block -- is answered without the channel-mask ACK, once per request of the block, and nothing is applied *)
+Theorem C08_dynamic_plan_rejects_rfu_chmaskcntl : forall snr h p h' dp,
+  rg_plan (h_rg h) = PDyn dp ->
+  N.land (N.shiftr (nthN p 3) 4) 7 <> 0 -> N.land (N.shiftr (nthN p 3) 4) 7 <> 6 ->
+  handle_cmd snr h 0x03 p false = Val h' ->
+  exists ans, N.land ans 1 = 0 /\
+    (h_pending h', h_full h') = fold_left (fun acc _ => push_answer acc [0x03; ans]) (seq 0 (S (h_nadr h))) (h_pf h) /\
+    h_cf h' = h_cf h /\ h_rg h' = h_rg h.
+Proof. exact dynamic_plan_rejects_rfu_chmaskcntl. Qed.
+
+(* ... and anywhere else inside a block it poisons the block: the poison persists to the last request, which then rejects *)
+Theorem C08_rfu_chmaskcntl_poisons_the_block : forall snr h p h',
+  region_mask_update (h_rg h) (h_mask h) (N.land (N.shiftr (nthN p 3) 4) 7) (nthN p 1) (nthN p 2) = Val None ->
+  handle_cmd snr h 0x03 p true = Val h' ->
+  h_known h' = false /\ h_cf h' = h_cf h /\ h_rg h' = h_rg h /\ h_pf h' = h_pf h /\ h_nadr h' = S (h_nadr h).
+Proof. exact rfu_inside_block_poisons. Qed.
+
+Theorem C08_poisoned_block_is_rejected : forall snr h p h',
+  (h_known h = false \/
+   region_mask_update (h_rg h) (h_mask h) (N.land (N.shiftr (nthN p 3) 4) 7) (nthN p 1) (nthN p 2) = Val None) ->
+  handle_cmd snr h 0x03 p false = Val h' ->
+  exists ans, N.land ans 1 = 0 /\
+    (h_pending h', h_full h') = fold_left (fun acc _ => push_answer acc [0x03; ans]) (seq 0 (S (h_nadr h))) (h_pf h) /\
+    h_cf h' = h_cf h /\ h_rg h' = h_rg h.
+Proof. exact poisoned_block_rejected. Qed.
+
+Theorem C08_block_poison_persists : forall snr h p h',
+  h_known h = false -> handle_cmd snr h 0x03 p true = Val h' -> h_known h' = false.
+Proof. exact poison_persists. Qed.
